@@ -52,8 +52,11 @@
 (*                   intraProxyManager.sendReplicationMessages (senders)    *)
 (*   RouteAck        shard_manager.go:DeliverAckToShardOwner ->             *)
 (*                   intraProxyManager.sendAck (receivers, streamClient)    *)
-(*   Deliver         the other end of the stream reads the message (what is *)
-(*                   in flight when that end stops reading is lost)         *)
+(*   Deliver         the other end of the stream reads the oldest entry and *)
+(*                   hands it to the local channel (blocking: needs room);  *)
+(*                   what is in flight when that end stops reading is lost  *)
+(*   Stall/Unstall   the shard's local stream stops / resumes consuming     *)
+(*   Consume         ... and takes the oldest entry out of the channel      *)
 (*                                                                          *)
 (* Repairs (proposed/C09-intraproxy-streams.diff), each behind a constant:  *)
 (*   FixSenderPrune    pruning a sender also ends its stream                *)
@@ -65,7 +68,7 @@
 EXTENDS Integers, FiniteSets, Sequences, TLC
 
 CONSTANTS Inst, Shard, MaxStreams, MaxEnv, MaxMsg,
-          AllowHold, AllowBreak, AllowRemove,
+          AllowHold, AllowBreak, AllowRemove, AllowStall, Cap,
           FixSenderPrune, FixGuardedDelete, FixOpening, FixPeerKey
 
 Cluster(sh) == sh \div 10
@@ -89,9 +92,11 @@ VARIABLES
   frozen,   \* the environment has stopped changing and every view is accurate
   nenv,
   msgs,     \* set of [id, kind, n, key, to, state]  routed messages / acks handed to a stream
+  stall,    \* set of <<instance, shard>>: the local consumer of that shard's channels (the shard's own stream) does not take
+            \* anything out at the moment (back-pressure); the channels hold Cap entries
   wire      \* [<<client, server>> -> Seq(Sid)]  streams created by the client whose handler has not started yet: the
             \* streams of one connection reach the server in the order they were created
-vars == <<local, view, st, rtab, stab, pc, des, todo, hold, frozen, nenv, msgs, wire>>
+vars == <<local, view, st, rtab, stab, pc, des, todo, hold, frozen, nenv, msgs, wire, stall>>
 
 Min(S) == CHOOSE x \in S : \A y \in S : x <= y
 FreeSids == {n \in Sid : st[n].c = "free"}
@@ -102,7 +107,7 @@ InitRest ==
         /\ rtab = [x \in TabDom |-> 0] /\ stab = [x \in TabDom |-> 0]
         /\ pc = [i \in Inst |-> "idle"] /\ des = [i \in Inst |-> [r |-> {}, s |-> {}]] /\ todo = [i \in Inst |-> {}]
         /\ hold = [i \in Inst |-> FALSE] /\ frozen = FALSE /\ nenv = 0 /\ msgs = {}
-        /\ wire = [x \in Inst \X Inst |-> <<>>]
+        /\ wire = [x \in Inst \X Inst |-> <<>>] /\ stall = {}
 Init == local = [i \in Inst |-> {}] /\ view = [i \in Inst |-> [p \in Inst |-> {}]] /\ InitRest
 
 ----------------------------------------------------------------------------
@@ -111,42 +116,50 @@ Env == ~frozen /\ nenv < MaxEnv /\ nenv' = nenv + 1
 AddLocal(i, sh) ==
   /\ Env /\ \A j \in Inst : sh \notin local[j]          \* ownership conflicts are the business of spec/Gossip
   /\ local' = [local EXCEPT ![i] = @ \cup {sh}]
-  /\ UNCHANGED <<view, st, rtab, stab, pc, des, todo, hold, frozen, msgs, wire>>
+  /\ UNCHANGED <<view, st, rtab, stab, pc, des, todo, hold, frozen, msgs, wire, stall>>
 RemoveLocal(i, sh) ==
-  /\ Env /\ AllowRemove /\ sh \in local[i]
+  /\ Env /\ AllowRemove /\ sh \in local[i] /\ <<i, sh>> \notin stall
   /\ local' = [local EXCEPT ![i] = @ \ {sh}]
-  /\ UNCHANGED <<view, st, rtab, stab, pc, des, todo, hold, frozen, msgs, wire>>
+  /\ UNCHANGED <<view, st, rtab, stab, pc, des, todo, hold, frozen, msgs, wire, stall>>
 \* a state push of p (current or stale, or of a shard set p never held) is merged at i; at most one owner per shard in a view
 SetView(i, p, S) ==
   /\ Env /\ i # p /\ S # view[i][p] /\ S # {}
   /\ \A q \in Inst \ {p} : S \cap view[i][q] = {}
   /\ view' = [view EXCEPT ![i][p] = S]
-  /\ UNCHANGED <<local, st, rtab, stab, pc, des, todo, hold, frozen, msgs, wire>>
+  /\ UNCHANGED <<local, st, rtab, stab, pc, des, todo, hold, frozen, msgs, wire, stall>>
 Leave(i, p) ==
   /\ Env /\ i # p /\ view[i][p] # {}
   /\ view' = [view EXCEPT ![i][p] = {}]
-  /\ UNCHANGED <<local, st, rtab, stab, pc, des, todo, hold, frozen, msgs, wire>>
+  /\ UNCHANGED <<local, st, rtab, stab, pc, des, todo, hold, frozen, msgs, wire, stall>>
 \* the server of j becomes unreachable: established connections to it die, new ones do not get ready until Unhold
 Hold(j) ==
   /\ Env /\ AllowHold /\ ~hold[j] /\ hold' = [hold EXCEPT ![j] = TRUE]
   /\ st' = [n \in Sid |-> IF st[n].srv = j /\ (st[n].c \in {"open", "exiting"} \/ st[n].s \in {"accepted", "exiting"})
                            THEN [st[n] EXCEPT !.brk = TRUE] ELSE st[n]]
-  /\ UNCHANGED <<local, view, rtab, stab, pc, des, todo, frozen, msgs, wire>>
+  /\ UNCHANGED <<local, view, rtab, stab, pc, des, todo, frozen, msgs, wire, stall>>
 Unhold(j) ==
   /\ ~frozen /\ hold[j] /\ hold' = [hold EXCEPT ![j] = FALSE]
-  /\ UNCHANGED <<local, view, st, rtab, stab, pc, des, todo, frozen, nenv, msgs, wire>>
+  /\ UNCHANGED <<local, view, st, rtab, stab, pc, des, todo, frozen, nenv, msgs, wire, stall>>
 OnWire(n) == st[n].c \in {"open", "exiting"} \/ st[n].s \in {"accepted", "exiting"}
 Break(i, j) ==
   /\ Env /\ AllowBreak /\ i # j
   /\ \E n \in Sid : st[n].cli = i /\ st[n].srv = j /\ OnWire(n) /\ ~st[n].brk
   /\ st' = [n \in Sid |-> IF st[n].cli = i /\ st[n].srv = j /\ OnWire(n) THEN [st[n] EXCEPT !.brk = TRUE] ELSE st[n]]
-  /\ UNCHANGED <<local, view, rtab, stab, pc, des, todo, hold, frozen, msgs, wire>>
+  /\ UNCHANGED <<local, view, rtab, stab, pc, des, todo, hold, frozen, msgs, wire, stall>>
 \* gossip converges (every instance holds every other instance's state), nothing is held back any more
 Freeze ==
   /\ ~frozen /\ frozen' = TRUE
   /\ view' = [i \in Inst |-> [p \in Inst |-> IF p = i THEN {} ELSE local[p]]]
-  /\ hold' = [i \in Inst |-> FALSE]
+  /\ hold' = [i \in Inst |-> FALSE] /\ stall' = {}
   /\ UNCHANGED <<local, st, rtab, stab, pc, des, todo, nenv, msgs, wire>>
+
+\* back-pressure: the local stream of a shard stops / resumes taking entries out of the shard's local channels
+Stall(i, sh) ==
+  /\ Env /\ AllowStall /\ sh \in local[i] /\ <<i, sh>> \notin stall /\ stall' = stall \cup {<<i, sh>>}
+  /\ UNCHANGED <<local, view, st, rtab, stab, pc, des, todo, hold, frozen, msgs, wire>>
+Unstall(i, sh) ==
+  /\ <<i, sh>> \in stall /\ stall' = stall \ {<<i, sh>>}
+  /\ UNCHANGED <<local, view, st, rtab, stab, pc, des, todo, hold, frozen, nenv, msgs, wire>>
 
 ----------------------------------------------------------------------------
 (* reconciliation *)
@@ -156,7 +169,7 @@ Begin(i) ==
   /\ pc[i] = "idle" /\ pc' = [pc EXCEPT ![i] = "run"]
   /\ des' = [des EXCEPT ![i] = [r |-> DesR(i), s |-> DesS(i)]]
   /\ todo' = [todo EXCEPT ![i] = DesR(i)]
-  /\ UNCHANGED <<local, view, st, rtab, stab, hold, frozen, nenv, msgs, wire>>
+  /\ UNCHANGED <<local, view, st, rtab, stab, hold, frozen, nenv, msgs, wire, stall>>
 EnsureSkip(i, k) == k[1] \notin local[i] /\ k[2] \notin local[i]       \* EnsureReceiverForPeerShard: neither shard is local
 EnsureReuse(i, p, k) == LET cur == rtab[<<i, p, k>>] IN
   cur # 0 /\ (st[cur].c \in {"open", "exiting"} \/ (FixOpening /\ st[cur].c = "opening"))
@@ -171,7 +184,7 @@ Ensure(i) ==
                /\ LET n == Min(FreeSids) IN
                     /\ st' = [st EXCEPT ![n] = NewStream(i, p, k)]
                     /\ rtab' = [rtab EXCEPT ![<<i, p, k>>] = n]
-  /\ UNCHANGED <<local, view, stab, pc, des, hold, frozen, nenv, msgs, wire>>
+  /\ UNCHANGED <<local, view, stab, pc, des, hold, frozen, nenv, msgs, wire, stall>>
 \* the keys check() closes at instance i given desired maps d: closePeerShardLocked(peer, ps, key) closes the receiver AND the
 \* sender of the key; "desired" looks at the key only (the peer a key is desired for is ignored) unless FixPeerKey
 CloseSet(i, d) ==
@@ -192,7 +205,7 @@ Prune(i) ==
                                 ELSE IF n \in sclosed /\ FixSenderPrune THEN [st[n] EXCEPT !.sshut = TRUE, !.eof = TRUE]
                                 ELSE st[n]]                                               \* delete(ps.senders, key) only
   /\ pc' = [pc EXCEPT ![i] = "idle"]
-  /\ UNCHANGED <<local, view, des, todo, hold, frozen, nenv, msgs, wire>>
+  /\ UNCHANGED <<local, view, des, todo, hold, frozen, nenv, msgs, wire, stall>>
 
 ----------------------------------------------------------------------------
 (* the two ends of a stream *)
@@ -206,11 +219,11 @@ CliOpen(n) ==
   /\ st[n].c = "opening" /\ ~st[n].cancel /\ ~hold[st[n].srv]
   /\ st' = [st EXCEPT ![n].c = "open"]
   /\ wire' = [wire EXCEPT ![<<st[n].cli, st[n].srv>>] = Append(@, n)]
-  /\ UNCHANGED <<local, view, rtab, stab, pc, des, todo, hold, frozen, nenv, msgs>>
+  /\ UNCHANGED <<local, view, rtab, stab, pc, des, todo, hold, frozen, nenv, msgs, stall>>
 CliOpenFail(n) ==
   /\ st[n].c = "opening" /\ st[n].cancel
   /\ st' = [st EXCEPT ![n] = FreeRec] /\ rtab' = DelR(n)
-  /\ UNCHANGED <<local, view, stab, pc, des, todo, hold, frozen, nenv, msgs, wire>>
+  /\ UNCHANGED <<local, view, stab, pc, des, todo, hold, frozen, nenv, msgs, wire, stall>>
 Accepts(n) == st[n].key[2] \in local[st[n].srv] /\ st[n].key[1] \notin local[st[n].srv]
 SrvArrive(n) ==
   /\ st[n].s = "none" /\ ~st[n].brk
@@ -220,28 +233,28 @@ SrvArrive(n) ==
      THEN /\ st' = [st EXCEPT ![n].s = "accepted"]
           /\ stab' = [stab EXCEPT ![<<st[n].srv, st[n].cli, st[n].key>>] = n]
      ELSE /\ st' = [st EXCEPT ![n] = Norm([st[n] EXCEPT !.s = "gone", !.eof = TRUE])] /\ UNCHANGED stab
-  /\ UNCHANGED <<local, view, rtab, pc, des, todo, hold, frozen, nenv, msgs>>
+  /\ UNCHANGED <<local, view, rtab, pc, des, todo, hold, frozen, nenv, msgs, stall>>
 SrvSkip(n) ==    \* the transport broke before the server saw the stream
   /\ st[n].s = "none" /\ st[n].brk /\ st[n].c \in {"open", "exiting", "gone"}
   /\ st' = [st EXCEPT ![n] = Norm([st[n] EXCEPT !.s = "gone", !.eof = TRUE])]
   /\ wire' = [wire EXCEPT ![<<st[n].cli, st[n].srv>>] = SelectSeq(@, LAMBDA x : x # n)]
-  /\ UNCHANGED <<local, view, rtab, stab, pc, des, todo, hold, frozen, nenv, msgs>>
+  /\ UNCHANGED <<local, view, rtab, stab, pc, des, todo, hold, frozen, nenv, msgs, stall>>
 CliEnd(n) ==
   /\ st[n].c = "open" /\ (st[n].cancel \/ st[n].brk \/ st[n].eof)
   /\ st' = [st EXCEPT ![n].c = "exiting"] /\ msgs' = LostAt(n, "msg")
-  /\ UNCHANGED <<local, view, rtab, stab, pc, des, todo, hold, frozen, nenv, wire>>
+  /\ UNCHANGED <<local, view, rtab, stab, pc, des, todo, hold, frozen, nenv, wire, stall>>
 CliExit(n) ==
   /\ st[n].c = "exiting"
   /\ st' = [st EXCEPT ![n] = Norm([st[n] EXCEPT !.c = "gone"])] /\ rtab' = DelR(n)
-  /\ UNCHANGED <<local, view, stab, pc, des, todo, hold, frozen, nenv, msgs, wire>>
+  /\ UNCHANGED <<local, view, stab, pc, des, todo, hold, frozen, nenv, msgs, wire, stall>>
 SrvEnd(n) ==
   /\ st[n].s = "accepted" /\ (st[n].cancel \/ st[n].brk \/ st[n].sshut)
   /\ st' = [st EXCEPT ![n].s = "exiting"] /\ msgs' = LostAt(n, "ack")
-  /\ UNCHANGED <<local, view, rtab, stab, pc, des, todo, hold, frozen, nenv, wire>>
+  /\ UNCHANGED <<local, view, rtab, stab, pc, des, todo, hold, frozen, nenv, wire, stall>>
 SrvExit(n) ==
   /\ st[n].s = "exiting"
   /\ st' = [st EXCEPT ![n] = Norm([st[n] EXCEPT !.s = "gone", !.eof = TRUE])] /\ stab' = DelS(n)
-  /\ UNCHANGED <<local, view, rtab, pc, des, todo, hold, frozen, nenv, msgs, wire>>
+  /\ UNCHANGED <<local, view, rtab, pc, des, todo, hold, frozen, nenv, msgs, wire, stall>>
 
 ----------------------------------------------------------------------------
 (* routed messages and acknowledgements on the streams *)
@@ -264,29 +277,42 @@ Handoff(id, kind, from, k, owner, n) ==
 RouteMsg(j, k) ==
   /\ Cardinality(msgs) < MaxMsg /\ k[1] \notin local[j] /\ Owner(j, k[1]) # {}
   /\ msgs' = msgs \cup {Handoff(NextId, "msg", j, k, CHOOSE q \in Owner(j, k[1]) : TRUE, MsgStream(j, k))}
-  /\ UNCHANGED <<local, view, st, rtab, stab, pc, des, todo, hold, frozen, nenv, wire>>
+  /\ UNCHANGED <<local, view, st, rtab, stab, pc, des, todo, hold, frozen, nenv, wire, stall>>
 RouteAck(i, k) ==
   /\ Cardinality(msgs) < MaxMsg /\ k[2] \notin local[i] /\ Owner(i, k[2]) # {}
   /\ msgs' = msgs \cup {Handoff(NextId, "ack", i, k, CHOOSE q \in Owner(i, k[2]) : TRUE, AckStream(i, k))}
-  /\ UNCHANGED <<local, view, st, rtab, stab, pc, des, todo, hold, frozen, nenv, wire>>
-\* the other end reads it (recvReplicationMessages hands it to the local channel / recvAck to DeliverAckToShardOwner)
+  /\ UNCHANGED <<local, view, st, rtab, stab, pc, des, todo, hold, frozen, nenv, wire, stall>>
+\* the local channel an entry goes to at the reading end: the target shard's send channel (messages), the source shard's ack channel
+ChanOf(m) == <<m.rend, m.kind, IF m.kind = "msg" THEN m.key[1] ELSE m.key[2]>>
+Queued(ch) == {x \in msgs : x.state = "queued" /\ ChanOf(x) = ch}
+\* the other end reads the oldest entry of the stream and hands it to the local channel (recvReplicationMessages: ch <- msg /
+\* recvAck -> DeliverAckToShardOwner: ackCh <- ack, both blocking): needs room in the channel
 Deliver(m) ==
   /\ m.state = "flight"
   /\ IF m.kind = "msg" THEN CliSendOK(m.n) ELSE SrvSendOK(m.n)
+  /\ \A x \in msgs : (x.n = m.n /\ x.kind = m.kind /\ x.state = "flight") => m.id <= x.id
+  /\ Cardinality(Queued(ChanOf(m))) < Cap
+  /\ msgs' = (msgs \ {m}) \cup {[m EXCEPT !.state = "queued"]}
+  /\ UNCHANGED <<local, view, st, rtab, stab, pc, des, todo, hold, frozen, nenv, wire, stall>>
+\* the shard's local stream takes the oldest entry out of the channel
+Consume(m) ==
+  /\ m.state = "queued" /\ <<m.rend, ChanOf(m)[3]>> \notin stall
+  /\ \A x \in Queued(ChanOf(m)) : m.id <= x.id
   /\ msgs' = (msgs \ {m}) \cup {[m EXCEPT !.state = "arrived"]}
-  /\ UNCHANGED <<local, view, st, rtab, stab, pc, des, todo, hold, frozen, nenv, wire>>
+  /\ UNCHANGED <<local, view, st, rtab, stab, pc, des, todo, hold, frozen, nenv, wire, stall>>
 
 ----------------------------------------------------------------------------
 EnvNext ==
   \/ \E i \in Inst, sh \in Shard : AddLocal(i, sh) \/ RemoveLocal(i, sh)
   \/ \E i, p \in Inst : (\E S \in SUBSET Shard : SetView(i, p, S)) \/ Leave(i, p) \/ Break(i, p)
   \/ \E j \in Inst : Hold(j) \/ Unhold(j)
+  \/ \E i \in Inst, sh \in Shard : Stall(i, sh) \/ Unstall(i, sh)
   \/ Freeze
 RecNext == \E i \in Inst : Begin(i) \/ Ensure(i) \/ Prune(i)
 StreamNext == \E n \in Sid : CliOpen(n) \/ CliOpenFail(n) \/ SrvArrive(n) \/ SrvSkip(n) \/ CliEnd(n) \/ CliExit(n)
                              \/ SrvEnd(n) \/ SrvExit(n)
 MsgNext == \/ \E j \in Inst, k \in Keys : RouteMsg(j, k) \/ RouteAck(j, k)
-           \/ \E m \in msgs : Deliver(m)
+           \/ \E m \in msgs : Deliver(m) \/ Consume(m)
 Next == EnvNext \/ RecNext \/ StreamNext \/ MsgNext
 Fair == /\ \A i \in Inst : WF_vars(Begin(i)) /\ WF_vars(Ensure(i)) /\ WF_vars(Prune(i))
         /\ \A n \in Sid : /\ WF_vars(CliOpen(n)) /\ WF_vars(CliOpenFail(n)) /\ WF_vars(SrvArrive(n)) /\ WF_vars(SrvSkip(n))
@@ -319,6 +345,11 @@ NoDup == \A n, m \in Sid : (n # m /\ ClientLive(n) /\ ClientLive(m)) =>
 \* reported delivered only onto a stream of the pair whose other end is the owner; never twice (ids are unique by construction)
 MsgSound ==
   \A m \in msgs : m.state # "undelivered" => m.n # 0 /\ m.skey = m.key /\ m.rend = m.owner
+\* every entry comes out of the local channel exactly once (one record per id) and in the order of the hand-offs: nothing that was
+\* handed to a stream later is out (or in the channel) while an earlier entry of the same stream is still in flight
+MsgOrder ==
+  \A m1, m2 \in msgs : (m1.n = m2.n /\ m1.kind = m2.kind /\ m1.n # 0 /\ m1.id < m2.id /\ m1.state = "flight")
+                         => m2.state \in {"flight", "lost"}
 StreamBusy(n) ==
   \/ st[n].c = "opening" /\ (st[n].cancel \/ ~hold[st[n].srv])
   \/ st[n].s = "none" /\ st[n].c \in {"open", "exiting", "gone"}
